@@ -235,3 +235,23 @@ for kname, mk in OBJ_KINDS.items():
                 c.setup = setup
                 c.custom_replay = "contracts.c06_extra.replay_invalid_identifier"  # design-level reproduction of the valid-identifier obligation
                 con.cases.append(c)
+
+
+# ---- VhdlScope.reserve_name (entity attribute `reserved_names`): the invariant of complete_setup is "used_names holds LOWER-CASED
+# names" (a candidate is tested with `name.lower() in used_names`); a name reserved in another spelling must be found by it
+def reserve_spec(sx, self, name):
+    real = sx.real_args[0]
+    entry = real.fields["_used_names"].term
+
+    def holds(res):
+        used = real.fields["_used_names"].term
+        return z3.And(z3.IsMember(lower(name.term), used), z3.IsSubset(entry, used))
+
+    return C.Pred(holds, "lower(name) is a member of used_names afterwards (nothing removed)")
+
+
+con = contract("cohdl._compiler.backend.vhdl._vhdl_repr:VhdlScope.reserve_name", PROPS)
+c = Case("symbolic-name", [Built([], lambda env: SObj(VhdlScope, _used_names=SSet(z3.Const("U_reserved", SetS))), lambda asg: "None", lambda asg: None),
+                           Built([], lambda env: SStr(z3.Const("reserved_name", sym.StrS)), lambda asg: "None", lambda asg: None)], reserve_spec)
+c.native = False
+con.cases.append(c)
